@@ -247,15 +247,35 @@ fn fork_run(f: impl FnOnce() -> Vec<u8>, timeout_s: u64) -> Forked {
         unsafe { std::ptr::copy_nonoverlapping(slot.add(120), b.as_mut_ptr(), 8) };
         u64::from_le_bytes(b)
     };
+    // ... and it applies to processor time as well as to wall-clock time: on an overloaded
+    // machine a healthy child may not get the processor for many seconds; a spinning one burns
+    // it whenever it runs. (Ten times the wall-clock limit ends the wait in any case.)
+    let cpu_ms = || -> u64 {
+        std::fs::read_to_string(format!("/proc/{}/stat", pid))
+            .ok()
+            .and_then(|t| {
+                let rest = t.rsplit(')').next()?.to_string();
+                let f: Vec<&str> = rest.split_whitespace().collect();
+                Some((f.get(11)?.parse::<u64>().ok()? + f.get(12)?.parse::<u64>().ok()?) * 10)
+            })
+            .unwrap_or(u64::MAX / 4)
+    };
     let mut last_steps = steps_now();
+    let mut cpu0 = cpu_ms();
     loop {
         let s = steps_now();
         if s != last_steps {
             last_steps = s;
             t0 = Instant::now();
+            cpu0 = cpu_ms();
         }
         let limit_ms = if last_steps == POST_PHASE { timeout_s * 10_000 } else { timeout_s * 1000 };
-        let left = limit_ms.saturating_sub(t0.elapsed().as_millis() as u64);
+        let waited = t0.elapsed().as_millis() as u64;
+        let mut left = limit_ms.saturating_sub(waited);
+        if left == 0 && waited < limit_ms * 10 && cpu_ms().saturating_sub(cpu0) < limit_ms / 2 {
+            // starved rather than spinning: keep waiting
+            left = 1000;
+        }
         if left == 0 {
             timed_out = true;
             break;
